@@ -61,4 +61,7 @@ for k in sorted(bad):
     for l in bad[k]:
         print(k, l)
 print("%d refactorings, %d silent, %d with reports" % (len(res), len(res) - len(bad), len(bad)))
-json.dump(res, open(os.path.join(root, "NEWRULES-r6.json"), "w"), indent=1, sort_keys=True)
+path = os.path.join(root, "NEWRULES-r6.json")
+old = json.load(open(path)) if (ids and os.path.exists(path)) else {}
+old.update(res)
+json.dump(old, open(path, "w"), indent=1, sort_keys=True)
